@@ -85,7 +85,17 @@ def snippet(rng, i):
     """hand-shaped programs for corners the simulation reaches rarely"""
     t = 1
     lib = rng.choice(["tracing", "futures"])
-    kind = i % 3
+    kind = i % 4
+    if kind == 3:
+        # an owned entered guard named as the explicit parent of a new span (`parent: &guard`) and cloned (`guard.clone()` is a Span
+        # handle, through Deref): neither may add or lose a reference of the guard's span
+        steps = [{"op": "switch", "t": t, "d": 1}, {"op": "new", "t": t, "h": 1, "tgt": "a", "pk": "root", "p": 1}, {"op": "entered", "t": t, "h": 1, "g": 1}]
+        extra = [{"op": "new", "t": t, "h": 2, "tgt": rng.choice(["a", "x"]), "pk": "of", "p": 1}, {"op": "clone", "t": t, "h": 1, "h2": 3}]
+        rng.shuffle(extra)
+        steps += extra + [{"op": "drop", "t": t, "h": 3}]
+        steps += rng.choice([[{"op": "exit_entered", "t": t, "h": 0, "g": 1}, {"op": "drop", "t": t, "h": 2}, {"op": "drop", "t": t, "h": 1}],
+                             [{"op": "drop", "t": t, "h": 2}, {"op": "drop_entered", "t": t, "h": 0, "g": 1}]])
+        return {"src": "snippet-guard-as-parent", "acc": [True, True, True], "alias": [rng.random() < 0.3, False, False], "steps": steps}
     if kind == 0:
         # a future instrumented with a DISABLED span while another span is entered: no collector call may result
         steps = [{"op": "switch", "t": t, "d": 1}, {"op": "new", "t": t, "h": 1, "tgt": "a", "pk": "root", "p": 1}, {"op": "enter", "t": t, "h": 1, "g": 1},
